@@ -312,6 +312,6 @@ pub fn run(ctx: &Ctx) {
     if ctx.is_worker || ctx.replay.is_some() {
         ctx.explore("reupload", 1, 1, case_strategy, oracle);
     } else {
-        run_confs(ctx, "reupload", ctx.tier.pick(8, 48), ctx.tier.pick(40, 160), false, &[]);
+        run_confs(ctx, "reupload", ctx.tier.pick(16, 96), ctx.tier.pick(60, 300), false, &[]);
     }
 }
